@@ -165,5 +165,5 @@ def nan_key(cfg):
 
 
 def describe(cfg):
-    keys = ("sizes", "E", "k", "support", "pattern", "fd", "mask", "repr", "hermitian", "vset", "total")
+    keys = ("sizes", "E", "k", "support", "pattern", "fd", "mask", "repr", "hermitian", "vset", "total", "symstyle")
     return {k_: cfg.get(k_) for k_ in keys} | ({"patterns": cfg["patterns"]} if cfg.get("patterns") else {})
